@@ -108,7 +108,7 @@ def failure_key(case, why):
 
 
 def run(ctx, out, replay=None):
-    n = 700 if ctx.quick() else 20000
+    n = 700 if ctx.quick() else 7000
     out.rule = ("allocations from random dyadic guillotine partitions (also sparse, grid, sliver layouts), occupancy maps "
                 "empty/single/multi/full/fixed, depths 0-3, then 1-4 random refinement operations (refine with thresholds "
                 "equal to occurring ratios, uniform depth, griddify); non-trivial = at least two cells; distinct by hash")
